@@ -5,6 +5,7 @@ package main
 
 import (
 	"fmt"
+	"go/ast"
 	"go/constant"
 	"go/token"
 	"go/types"
@@ -630,5 +631,240 @@ func c20Extra(c *Ctx) {
 	}
 	if n == 0 {
 		c.unresolved("C20-R7", "negativeAAAATTL", "no return drawing on SOA.Minttl found")
+	}
+}
+
+// ---------------------------------------------------------------------------
+// C05-R10 / C05-R11: sibling agreement decided statically (interval evaluation
+// and table extraction) — no concrete inputs are pushed through sdns code.
+
+func c05R10static(c *Ctx) {
+	const R = "C05-R10"
+	c.Doc(R, "the UDP reply ceiling is the same clamp on both ingress paths: the value stored to edns.ResponseWriter.size in the decoded branch (through dnsutil.SetEdns0) and in edns.serveWire is proven by interval evaluation to lie in exactly [MinMsgSize, DefaultMsgSize] (or is MaxMsgSize on a stream transport) — a branch with a wider or narrower range answers the same packet differently")
+	a := c06Anchors(c, R)
+	if a == nil {
+		return
+	}
+	lo, ok1 := x5ConstInt64(c, R, x5DnsPkg+".MinMsgSize")
+	hi, ok2 := x5ConstInt64(c, R, "internal/dnsutil.DefaultMsgSize")
+	maxMsg, ok3 := x5ConstInt64(c, R, x5DnsPkg+".MaxMsgSize")
+	setEdns0 := c.fn(R, "internal/dnsutil.SetEdns0")
+	setEdns0Obj := c.fobj(R, "internal/dnsutil.SetEdns0")
+	if !ok1 || !ok2 || !ok3 || setEdns0 == nil || setEdns0Obj == nil {
+		return
+	}
+	ev := &x5IvalEval{results: map[string]x5Ival{}}
+	// summary of SetEdns0's size result (#1)
+	var acc x5Ival
+	n := 0
+	for _, in := range returnsWhere(setEdns0, 1, nil) {
+		r := ev.eval(in.(*ssa.Return).Results[1], 0)
+		if n == 0 {
+			acc = r
+		} else {
+			acc = x5IvUnion(acc, r)
+		}
+		n++
+	}
+	if n > 0 && acc.known {
+		ev.results[funcObjKey(setEdns0Obj)+"#1"] = acc
+	}
+	type branch struct {
+		fn  string
+		iv  x5Ival
+		pos ssa.Instruction
+	}
+	var got []branch
+	for _, s := range c.StoreSites(a.size) {
+		// union over the non-stream alternatives of the stored value
+		var u x5Ival
+		first := true
+		var walk func(v ssa.Value, pred, blk *ssa.BasicBlock, d int)
+		seen := map[ssa.Value]bool{}
+		walk = func(v ssa.Value, pred, blk *ssa.BasicBlock, d int) {
+			if d > 20 {
+				return
+			}
+			if k, ok := v.(*ssa.Const); ok && IsConstInt(maxMsg)(Desc(k)) {
+				return // the stream-transport override, decided by C06-R6
+			}
+			if ph, ok := v.(*ssa.Phi); ok && !seen[v] {
+				seen[v] = true
+				for i, e := range ph.Edges {
+					walk(e, ph.Block().Preds[i], ph.Block(), d+1)
+				}
+				return
+			}
+			r := ev.eval(v, 0)
+			if pred != nil {
+				r = ev.refine(v, pred, blk, r, 0)
+			}
+			if first {
+				u, first = r, false
+			} else {
+				u = x5IvUnion(u, r)
+			}
+		}
+		walk(s.Val, nil, nil, 0)
+		if !first {
+			got = append(got, branch{fnKey(TopLevel(s.Fn)), u, s.Instr})
+		}
+	}
+	if len(got) < 2 {
+		c.unresolved(R, "ResponseWriter.size stores", fmt.Sprintf("expected the decoded and the wire branch, found %d", len(got)))
+		return
+	}
+	for _, b := range got {
+		key := R + "|" + b.fn + "|UDP ceiling interval"
+		if b.iv.known && b.iv.lo == lo && b.iv.hi == hi {
+			c.ok(R, key, instrPos(b.pos), fmt.Sprintf("size ∈ %s = [MinMsgSize, DefaultMsgSize]", b.iv))
+		} else {
+			c.violation(R, key, instrPos(b.pos), fmt.Sprintf("this ingress path clamps the UDP ceiling to %s, the other to [%d,%d]: the same packet is answered differently (e.g. truncated on one path only)", b.iv, lo, hi))
+		}
+	}
+}
+
+// c05ECSChecks extracts, per address-family case, the rejected conditions of
+// an ECS validator as tuples "octet <k> <op> <const>", resolving each compared
+// quantity to the payload octet it was read from.
+func c05ECSChecks(fd *ast.FuncDecl, info *types.Info, ecsOnly func(sw *ast.SwitchStmt) bool) (map[string]bool, string) {
+	if fd == nil {
+		return nil, "function not found"
+	}
+	// quantity → octet index: x = buf[k] / x = buf[off+k] / recv.Field = buf[k]
+	octet := map[string]int{}
+	constIdx := func(e ast.Expr) (int, bool) {
+		if tv, ok := info.Types[e]; ok && tv.Value != nil {
+			v, ok := constant.Int64Val(constant.ToInt(tv.Value))
+			return int(v), ok
+		}
+		if be, ok := e.(*ast.BinaryExpr); ok && be.Op == token.ADD {
+			if tv, ok := info.Types[be.Y]; ok && tv.Value != nil {
+				v, ok := constant.Int64Val(constant.ToInt(tv.Value))
+				return int(v), ok
+			}
+		}
+		return 0, false
+	}
+	name := func(e ast.Expr) string {
+		switch x := e.(type) {
+		case *ast.Ident:
+			return x.Name
+		case *ast.SelectorExpr:
+			return x.Sel.Name
+		}
+		return ""
+	}
+	ast.Inspect(fd.Body, func(n ast.Node) bool {
+		as, ok := n.(*ast.AssignStmt)
+		if !ok || len(as.Lhs) != len(as.Rhs) {
+			return true
+		}
+		for i := range as.Lhs {
+			if ix, ok := as.Rhs[i].(*ast.IndexExpr); ok {
+				if k, ok := constIdx(ix.Index); ok && name(as.Lhs[i]) != "" {
+					octet[name(as.Lhs[i])] = k
+				}
+			}
+		}
+		return true
+	})
+	out := map[string]bool{}
+	var sw *ast.SwitchStmt
+	ast.Inspect(fd.Body, func(n ast.Node) bool {
+		if s, ok := n.(*ast.SwitchStmt); ok && sw == nil && s.Tag != nil && ecsOnly(s) {
+			sw = s
+		}
+		return true
+	})
+	if sw == nil {
+		return nil, "no switch over the address family found"
+	}
+	for _, st := range sw.Body.List {
+		cc := st.(*ast.CaseClause)
+		fam := "default"
+		if len(cc.List) == 1 {
+			if tv, ok := info.Types[cc.List[0]]; ok && tv.Value != nil {
+				fam = tv.Value.ExactString()
+			}
+		}
+		rejectsAll := false
+		for _, s := range cc.Body {
+			switch x := s.(type) {
+			case *ast.ReturnStmt:
+				rejectsAll = true
+			case *ast.IfStmt:
+				var walk func(e ast.Expr)
+				walk = func(e ast.Expr) {
+					e = ast.Unparen(e)
+					be, ok := e.(*ast.BinaryExpr)
+					if !ok {
+						return
+					}
+					if be.Op == token.LOR {
+						walk(be.X)
+						walk(be.Y)
+						return
+					}
+					k, okk := octet[name(be.X)]
+					tv, okc := info.Types[be.Y]
+					if okk && okc && tv.Value != nil {
+						out[fmt.Sprintf("family %s: octet %d %s %s", fam, k, be.Op, tv.Value.ExactString())] = true
+					}
+				}
+				walk(x.Cond)
+			}
+		}
+		if rejectsAll && fam == "default" {
+			out["family default: reject"] = true
+		}
+	}
+	return out, ""
+}
+
+func c05R11static(c *Ctx) {
+	const R = "C05-R11"
+	c.Doc(R, "strict admission mirrors the library's ECS validation: per address family, every (payload octet, comparison, bound) that (*dns.EDNS0_SUBNET).unpack rejects is rejected by Request.parseWireOPT's client-subnet arm, read from both sources' syntax (source netmask and scope against 32 / 128, family 0 only with a zero netmask, unknown families refused)")
+	lfd, lpk := c.P.FuncDecl("github.com/miekg/dns.(*EDNS0_SUBNET).unpack")
+	sfd, spk := c.P.FuncDecl("middleware.(*Request).parseWireOPT")
+	if lfd == nil || sfd == nil {
+		c.unresolved(R, "ECS validators", "library unpack or parseWireOPT not found")
+		return
+	}
+	isFamilySwitch := func(info *types.Info) func(sw *ast.SwitchStmt) bool {
+		return func(sw *ast.SwitchStmt) bool {
+			// the switch whose cases are exactly the family constants 0,1,2 (+default)
+			cs := map[string]bool{}
+			for _, st := range sw.Body.List {
+				for _, e := range st.(*ast.CaseClause).List {
+					if tv, ok := info.Types[e]; ok && tv.Value != nil {
+						cs[tv.Value.ExactString()] = true
+					}
+				}
+			}
+			return len(cs) == 3 && cs["0"] && cs["1"] && cs["2"]
+		}
+	}
+	lib, why := c05ECSChecks(lfd, lpk.TypesInfo, isFamilySwitch(lpk.TypesInfo))
+	if why != "" {
+		c.undecided(R, R+"|library unpack", lfd.Pos(), why)
+		return
+	}
+	str, why := c05ECSChecks(sfd, spk.TypesInfo, isFamilySwitch(spk.TypesInfo))
+	if why != "" {
+		c.undecided(R, R+"|parseWireOPT", sfd.Pos(), why)
+		return
+	}
+	if len(lib) < 6 {
+		c.unresolved(R, "library ECS checks", fmt.Sprintf("expected ≥6 rejected conditions in the library, read %d: %s", len(lib), setString(lib)))
+		return
+	}
+	for k := range lib {
+		key := R + "|parseWireOPT|" + k
+		if str[k] {
+			c.ok(R, key, sfd.Pos(), "library rejects ["+k+"], so does strict admission")
+		} else {
+			c.violation(R, key, sfd.Pos(), "the library refuses ["+k+"] (the decoded path answers FORMERR) but strict admission lets the packet through: the two ingress paths disagree on which packets are refused")
+		}
 	}
 }
